@@ -773,7 +773,7 @@ theorem inv_drop (s : State) (i k o : Nat) (h : Inv s) (hp : s.ss[i]? = some (.f
       simp only [setPhase, updHeap]
       grind
 
-/-- every step of the code – as it is (`current`) and as it was before FIXL (`leakyTry`) – keeps the
+/-- every step of the code – as it is (`current`) and as it was before 114f7bfc (`leakyTry`) – keeps the
     invariant, and no `Unlock` / `RUnlock` of a holder ends in `ErrNoSuchLock` or on a foreign
     `lockCtr` -/
 theorem inv_step (v : Variant) (hv : v ≠ .tryRefOnCreate) (s s' : State) (i : Nat) (a : Act) (r : Outcome) (h : Inv s)
